@@ -188,7 +188,8 @@ def run(chk):
             for m in muts:
                 if m[0] == "assign-field" and m[1] == (ui,):
                     v = core.describe(prog, h, m[3]["rv"]["o"])
-                    ok = desc_contains(v, lambda y: y[0] == "call" and y[1].endswith("Clone>::clone") and desc_contains(y[2], lambda z: z[0] == "field" and z[2] == ui))
+                    ok = desc_contains(v, lambda y: y[0] == "call" and core.re.search(r"(Clone>::clone|ToString>::to_string|ToOwned>::to_owned|::to_string|::to_owned|String as std::convert::From<&str>>::from)$", y[1]) is not None and
+                                       desc_contains(y[2], lambda z: z[0] == "field" and z[2] == ui))
                     chk.ob("R3.forwarded", PH, "relayed uri derives from the request's uri", ok, f"uri value {core.short(str(v))[:100]}")
     # ---- R4 lock released before the network call
     he = prog.elab.get(PH)
@@ -233,11 +234,26 @@ def run(chk):
                     continue
                 fs = [e[1] for e in s["pl"]["p"] if e[0] == "f"]
                 if fs == [ii] and st.local_ty(s["pl"]["l"]).endswith("LoadBalancer"):
-                    v = core.describe(prog, st, s["rv"]["o"]) if s["rv"]["k"] == "use" else None
-                    if v == ("lit", 0):
-                        zeros.append(blk_i)
-                    else:
-                        incs.append(blk_i)
+                    # the stored value may be a local that was assigned 0 on one arm and index + 1 on the other: look at those assignments
+                    leaves = []
+                    src = core.op_local(s["rv"]["o"]) if s["rv"]["k"] == "use" else None
+                    seen_l = set()
+                    while src is not None and src not in seen_l:
+                        seen_l.add(src)
+                        ds_ = st.defs().get(src, [])
+                        if len(ds_) == 1 and ds_[0][2] == "assign" and ds_[0][3]["rv"]["k"] == "use" and core.op_local(ds_[0][3]["rv"]["o"]) is not None and not ds_[0][3]["rv"]["o"]["pl"]["p"]:
+                            src = core.op_local(ds_[0][3]["rv"]["o"])
+                            continue
+                        if len(ds_) > 1 and all(d_[2] == "assign" and d_[3]["rv"]["k"] == "use" for d_ in ds_):
+                            leaves = [(d_[0], core.describe(prog, st, d_[3]["rv"]["o"])) for d_ in ds_]
+                        break
+                    if not leaves:
+                        leaves = [(blk_i, core.describe(prog, st, s["rv"]["o"]) if s["rv"]["k"] == "use" else None)]
+                    for lb, v in leaves:
+                        if v == ("lit", 0):
+                            zeros.append(lb)
+                        else:
+                            incs.append(lb)
                 rv = s["rv"]
                 if rv["k"] == "use" and core.op_place(rv["o"]) and [e[1] for e in core.op_place(rv["o"])["p"] if e[0] == "f"] == [ii] and not s["pl"]["p"] and st.locals[s["pl"]["l"]].get("user"):
                     reads_.append((blk_i, s["pl"]["l"]))
